@@ -16,8 +16,8 @@ RULE = ('cases: seeded operation histories (insert / replace / non-negative incr
 ASSUMPTIONS = ['a rejection bound that is stale-high is correct (only slower) and is not flagged; stale-low is']
 BUDGET = {'quick': 150, 'thorough': 1200}
 CHUNK = {'quick': 20, 'thorough': 100}
-REQUIRED = ['laws_extracted', 'candidates_law_checked', 'totals_checked', 'heaviest_changes', 'zero_weight_candidates_seen', 'real_selections_checked']
-PATTERNS = ['random', 'heaviest_churn', 'drain_refill', 'equal', 'replace_heavy', 'zero_mix']
+REQUIRED = ['dominant_candidate_removals', 'laws_extracted', 'candidates_law_checked', 'totals_checked', 'heaviest_changes', 'zero_weight_candidates_seen', 'real_selections_checked']
+PATTERNS = ['random', 'heaviest_churn', 'drain_refill', 'equal', 'replace_heavy', 'zero_mix', 'dominant']
 FAMILIES = ['dyadic', 'nondyadic', 'wide', 'equal', 'withzero']
 
 
@@ -27,7 +27,7 @@ def gen_cases(tier, seed):
     for k in range(n):
         cs = case_seed(seed, PID, k)
         r = random.Random(cs)
-        out.append({'pattern': PATTERNS[k % len(PATTERNS)], 'family': r.choice(FAMILIES), 'weighted': (k % 7 != 6), 'size': r.choice([3, 8, 20, 60, 200]),
+        out.append({'pattern': PATTERNS[k % len(PATTERNS)], 'family': r.choice(FAMILIES), 'weighted': (k % 11 != 10), 'size': r.choice([3, 8, 20, 60, 200]),
                     'nops': r.choice([20, 60, 150, 400]), 'seed': cs})
     return out
 
@@ -167,6 +167,8 @@ def run_case(case):
     r = random.Random(case['seed'])
     weighted = case['weighted']
     fam = case['family'] if weighted else 'equal'
+    if case['pattern'] == 'dominant' and fam == 'wide':
+        fam = 'nondyadic'       # two scales only: the running total is not claimed exact when three widely separated scales are live at once
     pat = case['pattern']
     L = sim._ListDict_(weighted=weighted)
     shadow = {}
@@ -209,7 +211,20 @@ def run_case(case):
         for step in range(case['nops']):
             present = list(shadow)
             u = r.random()
-            if pat == 'heaviest_churn' and present and u < 0.5:
+            if pat == 'dominant' and weighted and present and u < 0.25 and sum(shadow.values()) > 0:
+                # one candidate that dominates the total by 9-15 orders of magnitude comes and goes (e.g. a hub with a huge rate):
+                # right after it has left, the clock total must again equal the sum of the light weights to rounding (1e-6 relative)
+                x = ('dom', step)
+                W = sum(shadow.values()) * 10 ** r.uniform(9, 15)
+                op_insert(x, W)
+                op_remove(x)
+                bump(res, 'dominant_candidate_removals')
+                sw = sum(shadow.values())
+                tw = L.total_weight()
+                if abs(tw - sw) > 1e-6 * sw:
+                    viol(res, tag + '|total_weight_after_dominant_candidate_left', {'total_weight': tw, 'sum_of_weights': sw, 'dominant_weight': W})
+                    return res
+            elif pat == 'heaviest_churn' and present and u < 0.5:
                 h = max(present, key=lambda x: shadow[x])
                 if r.random() < 0.5:
                     op_remove(h)
